@@ -57,6 +57,9 @@ class Prop(SeqProp):
         fresh = 0
         for _ in range(length):
             r = rng.random()
+            if not members and rng.random() < 0.15:
+                ops.append(rng.choice(["rot 1", "rot 0"]))  # rotating an empty list changes nothing
+                continue
             if not members or r < 0.18:
                 kind = rng.choice(["append", "prepend", "extend", "pre_extend", "append", "prepend", "extend", "pre_extend",
                                    "extendx", "pre_extendx", "extendpf"])
@@ -354,7 +357,13 @@ class Prop(SeqProp):
                     h = l.head; r = l.pop_front()
                     out.append(fin(f"ret {name(h)}") + ("" if r is h.data else " wrong-payload-returned"))
                 elif w[0] == "rot":
-                    l.rotate(front_to_back=(w[1] == "1")); out.append(fin("ok"))
+                    if w[1] == "1" and len(out) % 2:
+                        l.rotate()  # the default direction is front to back
+                    elif len(out) % 3 == 0:
+                        l.rotate(w[1] == "1")
+                    else:
+                        l.rotate(front_to_back=(w[1] == "1"))
+                    out.append(fin("ok"))
                 elif w[0] == "quiet":
                     quiet[0] = True; out.append("ok")
                 elif w[0] == "verbose":
